@@ -116,7 +116,7 @@ theorem genConstrainPointsToBounds_eq (o : Obj) (p : V3) :
   have h0 : (0 : Rat) ≤ (o.pix.n0 : Rat) := Nat.cast_nonneg _
   have h1 : (0 : Rat) ≤ (o.pix.n1 : Rat) := Nat.cast_nonneg _
   have h2 : (0 : Rat) ≤ (o.pix.n2 : Rat) := Nat.cast_nonneg _
-  simp only [genConstrainPointsToBounds, vwhere, vltZero, shapeOf, IVec.toV, constrainPt, V3.sub_def, V3.ofNat_def,
+  simp only [genConstrainPointsToBounds, Owned.vwhere, AsVec.vec, hsub_owned, id, vwhere, vltZero, shapeOf, IVec.toV, constrainPt, V3.sub_def, V3.ofNat_def,
     Int.cast_natCast, decide_eq_true_eq, Nat.cast_zero]
   ext <;> simp only <;> split_ifs <;> first | rfl | (exfalso; linarith)
 
